@@ -108,6 +108,7 @@ type interpreter struct {
 	bypass   *ssa.Function // call the real body of this function once, not its intrinsic
 	tolerantInit *ssa.Function
 	onSortSlice  value
+	interfered   int64
 	gobst        *gobState
 	twinLabel string
 	baseMapOrder int
@@ -127,10 +128,33 @@ func (i *interpreter) symAddr(instr *ssa.IndexAddr, x []value, idx value) *symPt
 	return &symPtr{elems: x, idx: sidx}
 }
 
+// atomicHook models interference by other threads on an atomic variable: with the
+// parameter atomic_interference = k, before each of the first k atomic operations of a
+// path another thread may have raised the (unsigned 64-bit) variable by an arbitrary
+// amount (rely condition: others only increase it, without wrapping).
 func (i *interpreter) atomicHook(p *value) {
 	if i.atomicAdversary != nil {
 		i.atomicAdversary(p)
 	}
+	if i.ps == nil || i.params["atomic_interference"] <= 0 || i.interfered >= i.params["atomic_interference"] {
+		return
+	}
+	cur, ok := (*p).(uint64)
+	var ct *Term
+	if ok {
+		ct = i.tt().Const(64, cur)
+	} else if s, isSym := (*p).(sym); isSym && s.k == types.Uint64 {
+		ct = s.t
+	} else {
+		return
+	}
+	i.interfered++
+	tt := i.tt()
+	d := i.ps.fresh("u64", "interference", 64)
+	sum := tt.Bin("bvadd", ct, d)
+	i.ps.assume(tt.Cmp("ule", ct, sum))                            // no wrap
+	i.ps.assume(tt.Cmp("ult", sum, tt.Const(64, uint64(1)<<63))) // counters stay far from 2^64
+	*p = mkval(sum, types.Uint64)
 }
 
 type fnInfo struct {
